@@ -11,6 +11,7 @@ SHUFFLE_EVERY = 3
 SHUFFLE = "piece.tracks"    # worker: every seventh case is built by add_absolute_message in shuffled order
 CANONICAL_ABS = True   # the function under test pairs / merges over the canonically sorted list (oracle.abs_order)
 TRACK_CHANNELS = "piece"   # worker: every fourth case moves each track's notes to another channel
+SCALE = True   # worker: every fortieth case (or SCALE_EVERY-th) is blown up by scale_case below
 PROP = "C01"
 MONITORS = ["tokenise"]
 ALSO = ("C02",)   # a token outside the vocabulary makes encode fail: observed here with its precise cause
@@ -29,6 +30,23 @@ FLOORS = {"quick": {"c01.roundtrips_compared": 1500, "#c01.flags.": 16, "c01.not
                     "c01.signature_change": 500, "c01.piece_needing_non_greedy_rests": 50},
           "thorough": {"c01.roundtrips_compared": 80000, "#c01.flags.": 16}}
 
+
+def scale_case(case, i):
+    """more tracks than a MIDI port has channels, or many sparsely filled bars (silences of many bars inside one call)"""
+    import random
+    r = random.Random(f"c01-big:{i}")
+    cfg = case["cfg"]
+    if case["stratum"] == "V":
+        return
+    if (i // 40) % 2 == 0:
+        big = dict(cfg, tracks=r.choice([17, 20, 24]))
+        pc = tc.valid_piece(r, big, stratum="A" if case["stratum"] == "A" else "B", max_notes=3)
+        if pc is not None:
+            cfg["tracks"] = big["tracks"]
+    else:
+        pc = tc.valid_piece(r, cfg, stratum="A" if case["stratum"] == "A" else "B", nseg=(1, 2), nbars=(10, 30), max_notes=3)
+    if pc is not None:
+        case["piece"] = pc
 
 def make_case(rng, i, tier):
     r = i % 10
